@@ -6,6 +6,15 @@ from . import build
 PY = build.PY
 
 
+def _clip(t):
+    # faulthandler prints the stack first and a very long extension-module list last: keep the head
+    t = t.replace("\r", "")
+    i = t.find("Extension modules:")
+    if i >= 0:
+        t = t[:i]
+    return t[:2500] if len(t) <= 3000 else t[:2000] + "\n...\n" + t[-800:]
+
+
 def _run_batch(monitor, indexed_cases, env, timeout, workdir, tag):
     bfile = os.path.join(workdir, "batch-%s.json" % tag)
     ofile = os.path.join(workdir, "out-%s.jsonl" % tag)
@@ -17,10 +26,10 @@ def _run_batch(monitor, indexed_cases, env, timeout, workdir, tag):
         r = subprocess.run([PY, "-X", "faulthandler", "-m", "vlib.worker", bfile, ofile], env=env, cwd=build.VERIF,
                            stdout=subprocess.PIPE, stderr=subprocess.PIPE, timeout=timeout)
         status["rc"] = r.returncode
-        status["stderr"] = r.stderr.decode("utf-8", "replace")[-3000:]
+        status["stderr"] = _clip(r.stderr.decode("utf-8", "replace"))
     except subprocess.TimeoutExpired as e:
         status["timeout"] = True
-        status["stderr"] = (e.stderr or b"").decode("utf-8", "replace")[-3000:]
+        status["stderr"] = _clip((e.stderr or b"").decode("utf-8", "replace"))
     recs, started, envinfo, done = {}, None, None, False
     with open(ofile) as fh:
         for line in fh:
